@@ -42,8 +42,8 @@ import time
 
 VERIF = os.environ.get("VERIF_ROOT", "/verif")
 REPO_LOCK = os.environ.get("VERIF_REPO_LOCK", "/repo/node/Cargo.lock")
-KANI_DIR = os.path.join(VERIF, "kani")
-TARGET = os.path.join(VERIF, "target")
+KANI_DIR = os.environ.get("VERIF_KANI_DIR", os.path.join(VERIF, "kani"))   # developer override, see framework.py
+TARGET = os.environ.get("VERIF_TARGET", os.path.join(VERIF, "target"))
 LOG_DIR = os.path.join(TARGET, "logs")
 HARNESSES_JSON = os.path.join(KANI_DIR, "harnesses.json")
 
